@@ -245,6 +245,10 @@ func (m *LeaseManager) getOrCreateSession(ctx context.Context) (*concurrency.Ses
 	if m.session != nil {
 		select {
 		case <-m.session.Done():
+			// The session this one replaces is dead and so is everything held
+			// under it. monitorSession only clears ownership while m.session is
+			// still the session it watches, so it must be cleared here.
+			m.owned = make(map[string]struct{})
 		default:
 			s := m.session
 			m.mu.Unlock()
